@@ -7,6 +7,8 @@ CONSTANTS
   UKinds = {"user"}
   Modes = {}
   Decos = {0}
+  Shapes = "any"
+  Ops = "all"
   MaxSteps = 5
   Script = "free"
 CONSTRAINT HWM
